@@ -88,7 +88,12 @@ func Evidence(id, tier, level string, coverage map[string]any, assumptions []str
 	}
 	b, _ := json.MarshalIndent(ev, "", " ")
 	os.MkdirAll(filepath.Join(Dir, "evidence"), 0o755)
-	if err := os.WriteFile(filepath.Join(Dir, "evidence", id+".json"), b, 0o644); err != nil {
+	name := id + ".json"
+	if part := os.Getenv("VERIF_PART"); part != "" {
+		// one part of a multi-part check: the driver merges the parts into <id>.json
+		name = id + ".part-" + part + ".json"
+	}
+	if err := os.WriteFile(filepath.Join(Dir, "evidence", name), b, 0o644); err != nil {
 		EngineError("cannot write evidence: %v", err)
 	}
 }
